@@ -92,7 +92,7 @@ PROFILES = {
     "C07": {"quick": [IDX1, CORE3, dq("mixed")], "thorough": [IDX1, CORE4, SEED2, dt("mixed")]},
     "C08": {"quick": [SEED2, PAIRS2, SCALE, dq("mixed")], "thorough": [SEED3, CORE4, CORE3H, SCALE, dt("mixed")]},
     "C09": {"quick": [SEED2, FINAL2, mc("MC_Decode_d2"), CONV, dq("mixed")], "thorough": [SEED3, CORE4, FINAL2, mc("MC_Decode_d2"), CONV, dt("mixed")]},
-    "C10": {"quick": [SEED2, SCALE, dq("mixed")], "thorough": [SEED3, CORE4, SCALE, dt("mixed")]},
+    "C10": {"quick": [SEED2, FAIL2, SCALE, dq("mixed")], "thorough": [SEED3, CORE4, FAIL2, SCALE, dt("mixed"), dt("fail")]},
     "C11": {"quick": [SEED2, CORE3, FAIL2, SCALE, PROOF, dq("all")], "thorough": [SEED3, CORE4, FAIL2, SIZES2, SHRINK2, SCALE, PROOF, dt("all")]},
     "C12": {"quick": [SEED2, CORE3, FAIL2, SCALE, dq("all")], "thorough": [SEED3, CORE4, FAIL2, SIZES2, SHRINK2, SCALE, dt("all")]},
     "C13": {"quick": [SEED2, SHRINK2, FAIL2, SCALE, dq("all")], "thorough": [SEED3, CORE4, SHRINK2, FAIL2, SIZES2, SCALE, dt("all")]},
